@@ -281,7 +281,7 @@ def replay_dummy(case):
         if got.shape != want.shape:
             res["violations"].append("%s of a dummy %s-index class: shape %s, layout says %s" % (name, fam, got.shape, want.shape))
             continue
-        dev = float(np.abs(got - want).max() / scale)
+        dev = float(common.above_noise(np.abs(got - want).max()) / scale)
         res["dev"] = max(res["dev"], dev)
         if not dev <= 1e-10:
             idx = np.unravel_index(np.argmax(np.abs(got - want)), want.shape)
@@ -302,7 +302,7 @@ def replay_dummy(case):
                     w = np.tensordot(a, w, (1, 0))
                 if b is not None:
                     w = np.moveaxis(np.tensordot(b, w, (1, 1)), 0, 1)
-                dev = float(np.abs(got - w).max() / (np.abs(w).max() + 1e-300)) if got.shape == w.shape else float("inf")
+                dev = float(common.above_noise(np.abs(got - w).max()) / (np.abs(w).max() + 1e-300)) if got.shape == w.shape else float("inf")
                 res["dev"] = max(res["dev"], dev if np.isfinite(dev) else 0)
                 if not dev <= 1e-10:
                     res["violations"].append("construct_array_lincomb (%s) of a dummy asymmetric class: max relative deviation %.3g, shape %s vs %s"
@@ -312,7 +312,7 @@ def replay_dummy(case):
             w = want
             for ax in range(nb):
                 w = np.moveaxis(np.tensordot(U1, w, (1, ax)), 0, ax)
-            dev = float(np.abs(got - w).max() / (np.abs(w).max() + 1e-300)) if got.shape == w.shape else float("inf")
+            dev = float(common.above_noise(np.abs(got - w).max()) / (np.abs(w).max() + 1e-300)) if got.shape == w.shape else float("inf")
             res["dev"] = max(res["dev"], dev if np.isfinite(dev) else 0)
             if not dev <= 1e-10:
                 res["violations"].append("construct_array_lincomb of a dummy %s-index class with a %s transformation: max relative deviation %.3g, shape %s vs %s"
@@ -395,7 +395,7 @@ def replay_public(case):
         typed = f(shells, None)
         want = apply_all(W, base, nb)
         sc = np.abs(want).max() + 1e-300
-        dev = float(np.abs(typed - want).max() / sc) if typed.shape == want.shape else float("inf")
+        dev = float(common.above_noise(np.abs(typed - want).max()) / sc) if typed.shape == want.shape else float("inf")
         if not dev <= 1e-9:
             res["violations"].append("%s: result for types %s differs from the Cartesian result contracted with the shells' "
                                      "transformation matrices (max relative deviation %.3g, shape %s vs %s)" % (name, types, dev, typed.shape, want.shape))
@@ -405,14 +405,14 @@ def replay_public(case):
             Un = np.eye(n) * (1 + 2.0 ** -18) + 2.0 ** -28 * (np.arange(n * n).reshape(n, n) % 7 - 3)
             ln = f(shells, Un)
             wn = apply_all(Un, typed, nb)
-            dn = float(np.abs(ln - wn).max() / (np.abs(wn).max() + 1e-300)) if ln.shape == wn.shape else float("inf")
+            dn = float(common.above_noise(np.abs(ln - wn).max()) / (np.abs(wn).max() + 1e-300)) if ln.shape == wn.shape else float("inf")
             if not dn <= 1e-9:
                 res["violations"].append("%s(transform = identity + 4e-6): differs from the untransformed array with the matrix applied to "
                                          "every basis index (max relative deviation %.3g)" % (name, dn))
         lin = f(shells, U)
         wantl = apply_all(U, typed, nb)
         scl = np.abs(wantl).max() + 1e-300
-        devl = float(np.abs(lin - wantl).max() / scl) if lin.shape == wantl.shape else float("inf")
+        devl = float(common.above_noise(np.abs(lin - wantl).max()) / scl) if lin.shape == wantl.shape else float("inf")
         if not devl <= 1e-9:
             res["violations"].append("%s(transform=U %s): differs from the untransformed array with U applied to every basis index "
                                      "(max relative deviation %.3g, shape %s vs %s)" % (name, U.shape, devl, lin.shape, wantl.shape))
@@ -491,7 +491,7 @@ def replay_convention(case):
             continue
         want = apply_all(P, f(ref, None), nb)
         got = f(cv, None)
-        dev = float(np.abs(got - want).max() / (np.abs(want).max() + 1e-300)) if got.shape == want.shape else float("inf")
+        dev = float(common.above_noise(np.abs(got - want).max()) / (np.abs(want).max() + 1e-300)) if got.shape == want.shape else float("inf")
         if not dev <= 1e-9:
             res["violations"].append("%s: a %s shell (l=%d) reporting components %s / %s does not give outputs permuted and signed accordingly "
                                      "(max relative deviation %.3g)" % (name, typ, l, case["cart"], labs, dev))
